@@ -80,7 +80,7 @@ def suite_phase(run, tier, workdir):
         groups.append(g)
     vlib.stage_specs(sd, ["Cache.tla", "TraceCache.tla"])
     tc = dict(Names="{%s}" % ", ".join(str(i) for i in range(1, nmax + 1)), MaxOps=100000, CleanupOnError="TRUE")
-    stm, fm = el.validate_groups(sd, groups, "TraceCache", tc, CACHE_INV, ["M_NoHalfBuilt", "M_PublishedStable"], "smon", spec="MonitorSpec")
+    stm, fm = el.validate_groups(sd, groups, "TraceCache", tc, CACHE_INV, ["M_NoHalfBuilt", "M_PublishedStable", "M_FailedLookupChangesNothing"], "smon", spec="MonitorSpec")
     stc, fc = el.validate_groups(sd, groups, "TraceCache", tc, CACHE_INV, [], "sconf")
     run.cov["states"] += stm["states"] + stc["states"]
     run.cov["transitions"] += stm["generated"] + stc["generated"]
